@@ -158,6 +158,34 @@ def check(prog: Program, run: Run) -> None:
     from . import c05
     from .common import run_as
     run_as(run, "C05.R2", "C17.R5", lambda r: c05._truncation(prog, r))
+    # the constant-prefix filter in front of the candidates does not depend on the mode; what it
+    # does not cover is rejected by an odxraise of the parameter (PHYS-CONST), i.e. only in
+    # strict mode: the filter has to cover every constant parameter kind (shared with C06.R4)
+    from . import c06
+    run_as(run, "C06.R4", "C17.R5", lambda r: c06._const_prefix(prog, r))
+    # the command line switch is registered once, on the top-level parser: argparse copies the
+    # defaults of a sub-parser over what the top-level parser has parsed
+    regs = []
+    for fcli in prog.iter_functions():
+        if not fcli.module.rel.startswith("odxtools/cli/"):
+            continue
+        for x in walk_no_nested(fcli.node):
+            if isinstance(x, ast.Call) and call_name(x) == "add_argument" and any(
+                    isinstance(a_, ast.Constant) and a_.value == "--no-strict" for a_ in x.args):
+                regs.append((fcli, x))
+    if len(regs) == 1 and regs[0][0].module.rel.endswith("cli/main.py"):
+        run.ok("C17.R3", "cli", "--no-strict is registered once, on the top-level parser",
+               f"{regs[0][0].module.rel}:{regs[0][1].lineno}")
+    else:
+        for fcli, x in regs:
+            if not fcli.module.rel.endswith("cli/main.py"):
+                run.violation("C17.R3", f"{fcli.module.rel}:{fcli.qual}", "switch-registered-twice",
+                              "`--no-strict` is registered on a sub-command parser as well: its "
+                              "default (False) is copied over the value the top-level parser "
+                              "has parsed, so `odxtools --no-strict <tool>` runs in strict mode",
+                              f"{fcli.module.rel}:{x.lineno}", "--no-strict")
+        if not regs:
+            raise AnalysisError("the --no-strict switch is not registered anywhere in the CLI")
 
     try:
         extra = Program(prog.repo, extra_dirs=("examples",))
@@ -709,6 +737,19 @@ def _check_odxraise(prog: Program, run: Run, exc: Module) -> None:
                       "odxraise has a parameter or local named strict_mode: it no longer reads "
                       "the module global at call time", f.loc)
         return
+    # the flag is an ordinary truth value (`strict_mode = 1` enables strict mode like `True`):
+    # it is tested by truthiness, not compared with True / False
+    for x in walk_no_nested(f.node):
+        if isinstance(x, ast.Compare) and any(is_flag_expr(prog, exc, y, locs)
+                                              for y in [x.left] + x.comparators) and any(
+                isinstance(y, ast.Constant) and isinstance(y.value, bool)
+                for y in [x.left] + x.comparators):
+            run.violation("C17.R2", "odxraise", "flag-compared-with-constant",
+                          f"`{ast.unparse(x)}`: the switch is compared with a boolean constant; "
+                          "a truthy value that is not the object True (1, a non-empty string "
+                          "from a configuration) re-enables strict mode for `if strict_mode` "
+                          "everywhere else but not here: the error is not restored",
+                          f"{f.module.rel}:{x.lineno}", ast.unparse(x))
     cfg = CFG(f.node)
     raises = [n for n in cfg.nodes if isinstance(n.stmt, ast.Raise) and n.kind == "stmt"]
     if not raises:
